@@ -2,22 +2,32 @@
 EXTENDS MC_Sync
 
 \* ---- role 2: environment schedules with the converged state the specification predicts
-VARIABLE hist
+CONSTANT Focus     \* "any" | "create": only the nodes that do not exist yet are written (and so created)
+VARIABLES hist, kind     \* kind of the current outage: "" | "disable" | "cut" | "restart"
 Label(i) == i.e \o ":" \o i.k
-GenInit == Init /\ hist = <<>>
+GenInit == Init /\ hist = <<>> /\ kind = ""
+Rec(op, side, id, del, n, how) == [op |-> op, side |-> side, id |-> id, del |-> del, n |-> n, how |-> how]
 GenNext ==
-    /\ \/ /\ LinkDown /\ hist' = Append(hist, [op |-> "down", side |-> "", id |-> "", del |-> FALSE, n |-> 0])
-       \/ /\ LinkUp /\ hist' = Append(hist, [op |-> "up", side |-> "", id |-> "", del |-> FALSE, n |-> 0])
-       \/ \E s \in Sides, i \in Idents, del \in BOOLEAN :
-             /\ (i.k # "tomb" => ~del)
-             \* a node is only written to / deleted where it is currently visible (C02: "nodes visible there")
-             /\ Visible(s, i.e) \/ (i.k = "tomb" /\ ~del /\ Visible(s, ParentOf[i.e]))
-             /\ Write(s, i, del)
-             /\ hist' = Append(hist, [op |-> "write", side |-> s, id |-> Label(i), del |-> del, n |-> clock])
+    \/ \E how \in {"disable", "cut", "restart"} :
+          /\ LinkDown /\ kind' = how /\ hist' = Append(hist, Rec("down", "", "", FALSE, 0, how))
+    \/ /\ LinkUp /\ kind' = "" /\ hist' = Append(hist, Rec("up", "", "", FALSE, 0, kind))
+    \/ \E s \in Sides, i \in Idents, del \in BOOLEAN :
+          /\ (i.k # "tomb" => ~del)
+          \* "create": nodes come into being on either side while the link is down
+          /\ (Focus = "create" => i.e \in Fresh /\ ~del /\ link = "down")
+          \* an upstream that is being restarted takes no writes
+          /\ (kind = "restart" => s = "D")
+          \* a node is only written to / deleted where it is currently visible (C02: "nodes visible
+          \* there"); a node that does not exist yet (or is deleted) is created (undeleted) below a
+          \* visible parent
+          /\ Visible(s, i.e) \/ (i.k = "tomb" /\ ~del /\ Visible(s, ParentOf[i.e]))
+          /\ Write(s, i, del)
+          /\ hist' = Append(hist, Rec("write", s, Label(i), del, clock, ""))
+          /\ UNCHANGED kind
     \* protocol steps happen on their own in the real system; for the prediction the model
     \* catches up at once whenever it can
-GenProto == (CatchUp \/ \E s \in Sides : Deliver(s)) /\ UNCHANGED hist
-GenSpec == GenInit /\ [][GenNext \/ GenProto]_<<yvars, hist>>
+GenProto == (CatchUp \/ \E s \in Sides : Deliver(s)) /\ UNCHANGED <<hist, kind>>
+GenSpec == GenInit /\ [][GenNext \/ GenProto]_<<yvars, hist, kind>>
 Json == INSTANCE Json
 \* the converged state: newest write number per identity (0 = never written)
 LastWrite(i) == LET ws == {k \in 1..Len(hist) : hist[k].op = "write" /\ hist[k].id = Label(i)}
